@@ -627,6 +627,50 @@ def h24_memory_layout_as_shape(ctx, tk, rule, funcs):
                                      "sliced, transposed or Fortran-ordered inputs" % ast.unparse(x), node=x, engine="KB")
 
 
+def h25_totals_equality_fast_path(ctx, tk, rule, funcs):
+    """a fast path guarded by an equality of *totals* built from single elements and counts of the geometry
+    (lengths[0] * n_rows == size, last_end - first_start == size): finitely many scalars cannot establish that every
+    row has the same length, or that the rows are contiguous and in order - lengths (2, 1, 3) and an interior permutation
+    satisfy such equalities too"""
+    from .guards import aggregate_only
+    GEOM = ("lengths", "starts", "ends", "_codes")
+    for f in funcs:
+        fa = ctx.fa(f)
+        for n in fa.cfg.nodes:
+            if n.kind != "test" or not fa.cfg.is_reachable(n) or n.ast is None:
+                continue
+            parts = []
+            _split_and(fa.term(n.ast, n), parts)
+            hit = None
+            for t in parts:
+                if not (t.k == "cmp" and t.a[0] == "==" and aggregate_only(t)):
+                    continue
+                if any(is_const(x, 0) for x in (t.a[1], t.a[2])):
+                    continue
+                elems = [x for x in walk(t) if x.k == "sub" and x.a[1].k in ("const", "un") and any(y.k == "attr" and y.a[1] in GEOM for y in walk(x.a[0]))]
+                arith = any(x.k == "bin" and x.a[0] in ("*", "-", "+") for x in walk(t))
+                if elems and arith:
+                    hit = t
+            if hit is None:
+                continue
+            # the true edge leads to a return before the general path
+            true_edges = [e for e in n.succ if e.kind == "edge" and e.info[1] is True]
+            rets = fa.cfg.returns()
+            fast = [r for r in rets if any(fa.cfg.dominates(e, r) for e in true_edges)]
+            if fast and len(rets) > len(fast):
+                ctx.violated(rule, f, "a shortcut for uniform / contiguous rows is guarded by a per-row check, not by an equality of totals",
+                             "`%s` compares totals built from single rows: it also holds for rows of unequal length (2, 1, 3) or rows out of order, for which `%s` is wrong" % (
+                                 hit, ast.unparse(fast[0].ast)[:80]), node=n.ast, engine="KB")
+
+
+def _split_and(t, out):
+    if t.k == "bool" and t.a[0] == "and":
+        for x in t.a[1]:
+            _split_and(x, out)
+    else:
+        out.append(t)
+
+
 def generic(ctx, tk, rule, funcs, skip=()):
     """all deviance-form hazard rules over a property's function scope"""
     fs = [f for f in funcs if f.qual not in skip]
@@ -652,6 +696,7 @@ def generic(ctx, tk, rule, funcs, skip=()):
     h22_reduceat_clamped(ctx, tk, rule + "/H22", fs)
     h23_uninitialised_result(ctx, tk, rule + "/H23", fs)
     h24_memory_layout_as_shape(ctx, tk, rule + "/H24", fs)
+    h25_totals_equality_fast_path(ctx, tk, rule + "/H25", fs)
     from . import wellformed as _W
     _W.report_constant_truth(ctx, tk, rule, fs)
     # H19 (raw ufunc identity stored) depends on which ufunc the caller chose: it is applied by C05 only, where the
